@@ -147,11 +147,11 @@ func EachShort(maxLen int, fn func(b []byte)) int {
 
 // DERNode is a leniently parsed TLV (definite lengths only).
 type DERNode struct {
-	Tag      []byte // identifier octets
-	Children []*DERNode
-	Content  []byte // for primitive nodes (or constructed ones that do not parse)
-	Off, Hdr, Len int // position in the original encoding
-	Constructed bool
+	Tag           []byte // identifier octets
+	Children      []*DERNode
+	Content       []byte // for primitive nodes (or constructed ones that do not parse)
+	Off, Hdr, Len int    // position in the original encoding
+	Constructed   bool
 }
 
 func parseDER(b []byte, base, depth int) ([]*DERNode, bool) {
